@@ -301,6 +301,7 @@ func c07(p *model.Prog, r *report.Result) {
 	c07r12(p, r, "C07.R12")
 	w5FeedAvSize(p, r, "C07.R13")
 	w7PtsFieldWidths(p, r, "C07.R15", "pkg/gb28181")
+	w8JumpOnlyWhenFull(p, r, "C07.R16")
 	w6ShiftWidth(p, r, "C07.R14", 0, "pkg/gb28181", "pkg/rtprtcp", "pkg/mpegts", "pkg/remux", "pkg/rtmp", "pkg/httpflv", "pkg/base", "pkg/avc", "pkg/hevc", "pkg/aac", "pkg/sdp", "pkg/rtsp", "pkg/hls", "pkg/logic")
 
 	// ---------------------------------------------------------------- R4
